@@ -98,7 +98,7 @@ def spec_edge_path(edge_path, inputs):
     return tuple(steps)
 
 
-def one_network(ctx, rng, ci, add):
+def one_network(ctx, rng, ci, add, holder):
     import cotengra as ctg
     from cotengra.pathfinders import path_basic as pb
 
@@ -106,6 +106,7 @@ def one_network(ctx, rng, ci, add):
     N = len(inputs)
     path = gen.rand_path(rng, N)
     rec = {"inputs": inputs, "output": output, "size_dict": size_dict, "path": path}
+    holder["rec"] = rec
     mk = lambda **kw: ctg.ContractionTree.from_path(inputs, output, size_dict, **kw)
     tree = mk(path=path)
     nested = gen.tree_nested(tree)
@@ -260,12 +261,13 @@ def run(ctx):
         records.append((rec, what))
 
     for ci in range(ncases):
+        holder = {}
         try:
-            one_network(ctx, rng, ci, add)
+            one_network(ctx, rng, ci, add, holder)
         except Exception as e:
             import traceback
             ctx.fail("implementation raised during a path conversion: %r" % (e,),
-                     {"traceback": traceback.format_exc()[-2500:]})
+                     dict(holder.get("rec", {}), traceback=traceback.format_exc()[-2500:]))
     ctx.log("generated %d correspondence cases over %d networks" % (len(cases), ncases))
     failing = ctx.coq_cases("c10", IMPORTS, cases, chunk=60, timeout=900)
     for idx, label, val in failing:
